@@ -20,8 +20,28 @@ LenCapInv == /\ TypeInv
              \* never a partial chunk: the published length is exactly the total length of the accepted chunks
              /\ accepted \in Seq(Nat) /\ Len(accepted) = s.len
 
+LEMMA PreTextSeq == \A c \in Nat : PreText(c) \in Seq(Nat) /\ Len(PreText(c)) = c
+  BY DEF PreText
+
 LEMMA InitOK == Init => LenCapInv
-  BY MaxCapNat DEF Init, LenCapInv, TypeInv, New, Fresh, Fields
+<1> SUFFICES ASSUME Init PROVE LenCapInv
+  OBVIOUS
+<1>1. PICK k \in Kinds, c \in 0..MaxCap : IF k = "cpp_string" THEN s = NewStr(c) /\ accepted = PreText(c)
+                                                               ELSE s = New(k, c) /\ accepted = <<>>
+  BY DEF Init
+<1>2. c \in Nat
+  BY MaxCapNat
+<1>3. CASE k = "cpp_string"
+  <2>1. s = NewStr(c) /\ accepted = PreText(c)
+    BY <1>1, <1>3
+  <2>2. accepted \in Seq(Nat) /\ Len(accepted) = c
+    BY <2>1, <1>2, PreTextSeq
+  <2> QED
+    BY <2>1, <2>2, <1>2, <1>3 DEF NewStr, New, Fresh, LenCapInv, TypeInv, Fields
+<1>4. CASE k # "cpp_string"
+  BY <1>1, <1>2, <1>4 DEF New, Fresh, LenCapInv, TypeInv, Fields
+<1> QED
+  BY <1>3, <1>4
 
 LEMMA StepOK == LenCapInv /\ [Next]_vars => LenCapInv'
 <1> SUFFICES ASSUME LenCapInv, [Next]_vars PROVE LenCapInv'
